@@ -64,6 +64,79 @@ fn main() {
             let code = ctx.finish(p.rule, p.assumptions, p.level, merge.as_deref(), &out);
             std::process::exit(code);
         }
+        "fuzz-seeds" => {
+            // qxv fuzz-seeds <Cxx> <dir>: write a small starting corpus (4 header bytes + input)
+            let prop = args.get(1).cloned().unwrap_or_else(|| usage());
+            let dir = args.get(2).cloned().unwrap_or_else(|| usage());
+            std::fs::create_dir_all(&dir).expect("cannot create corpus dir");
+            let mut inputs: Vec<Vec<u8>> = vec![];
+            for (_, d) in qxv::gen::corpus() {
+                if d.len() <= 600 {
+                    inputs.push(d);
+                }
+            }
+            for f in qxv::gen::FRAGMENTS {
+                inputs.push(f.to_vec());
+            }
+            if prop == "C11" {
+                inputs = vec![b" a=\"1\" b='2'".to_vec(), b" a=\"1\" a=\"x y\" b=\"2\"".to_vec(), b" k v=1 w".to_vec(), b" a = \"1\"  b".to_vec()];
+            }
+            if prop == "C10" {
+                inputs = vec![b"&lt;a&gt; &amp; &#x41;&#65; 'q' \"d\"".to_vec(), b"&unknown; &#0; &#xD800;".to_vec(), b"plain".to_vec()];
+            }
+            if prop == "C07" || prop == "C14" {
+                inputs = qxv::props::c07::VOCAB.iter().map(|w| w.as_bytes().to_vec()).collect();
+                inputs.push(b"<Elems><a>x</a><b>1</b><c>true</c><e>Red</e><f>y</f><g>2</g></Elems>".to_vec());
+                inputs.push(b"<MixedList k=\"\"><Unit/>t<Newtype>n</Newtype><Struct y=\"\"><x>1</x></Struct></MixedList>".to_vec());
+                inputs.push(b"<Nested id=\"1\"><inner a=\"\"><v>x</v></inner><list a=\"\"><v/></list><tail>t</tail></Nested>".to_vec());
+            }
+            for (k, inp) in inputs.iter().enumerate() {
+                for hdr in [[0u8, 0, 0, 0], [127, 0x41, 3, 1], [(k as u8).wrapping_mul(37), 0x85, 0x55, 2]] {
+                    let mut v = hdr.to_vec();
+                    v.extend_from_slice(inp);
+                    let _ = std::fs::write(format!("{}/seed-{:03}-{:02x}", dir, k, hdr[0]), v);
+                }
+            }
+            println!("wrote {} seeds to {}", inputs.len() * 3, dir);
+        }
+        "fuzz-artifact" => {
+            // qxv fuzz-artifact <Cxx> <artifact file>: re-run a libFuzzer input through the oracle
+            // and, if it fails, store it as a normal replay file
+            let prop = args.get(1).cloned().unwrap_or_else(|| usage());
+            let path = args.get(2).cloned().unwrap_or_else(|| usage());
+            let data = std::fs::read(&path).expect("cannot read artifact");
+            engine::install_quiet_panic_hook();
+            match qxv::fuzz::run(&prop, &data) {
+                None => {
+                    println!("artifact does not decode to a case of {}", prop);
+                    std::process::exit(3);
+                }
+                Some((case, v)) => {
+                    let known = engine::load_known_findings();
+                    let mut fail = v.fail.clone();
+                    for k in &v.known {
+                        if !known.iter().any(|f| f.property == prop && f.signature == *k && f.status == "known") && fail.is_none() {
+                            fail = Some(format!("discrepancy with signature `{}`", k));
+                        }
+                    }
+                    match fail {
+                        Some(m) => {
+                            let body = serde_json::json!({"property": prop, "stage": "fuzz", "variant": qxv::VARIANT, "seed": 0, "message": m, "case": case});
+                            let dir = format!("{}/replays/{}", engine::VERIF_ROOT, prop);
+                            let _ = std::fs::create_dir_all(&dir);
+                            let out = format!("{}/fuzz-{:016x}.json", dir, engine::fnv(&data));
+                            std::fs::write(&out, serde_json::to_string_pretty(&body).unwrap()).expect("cannot write replay");
+                            eprintln!("[{}] fuzz artifact fails: {}", prop, m);
+                            println!("VIOLATION property={} replay={}", prop, out);
+                            std::process::exit(1);
+                        }
+                        None => {
+                            println!("artifact passes the oracle of {}", prop);
+                        }
+                    }
+                }
+            }
+        }
         "replay" => {
             let path = args.get(1).cloned().unwrap_or_else(|| usage());
             let txt = std::fs::read_to_string(&path).expect("cannot read replay file");
